@@ -14,11 +14,11 @@ func init() {
 	run.Register(&run.Check{
 		ID:    "C16",
 		Level: "exploration",
-		Rule: "cases: a world (NetworkPolicy / ANP / Ingress+Route families, some with one name shared by workloads of two namespaces) and a focus name W drawn from: a present name, its namespace/name form, a shared name, an absent name, a namespace name, a prefix of a name, a wrong-namespace form, 'ingress-controller' with and without ingress resources; " +
+		Rule: "cases: the 212 manifest directories shipped with the repository with a focus name drawn from their own peers, then generated worlds (NetworkPolicy / ANP / Ingress+Route families, some with one name shared by workloads of two namespaces) and a focus name W drawn from: a present name, its namespace/name form, a shared name, an absent name, a namespace name, a prefix of a name, a wrong-namespace form, 'ingress-controller' with and without ingress resources; " +
 			"the library is run with and without WithFocusWorkload(W) and the focused entries must equal exactly the unfocused entries whose source or destination is a workload whose name or namespace/name equals W (or whose source is the ingress controller when W is ingress-controller), with identical connections; when nothing matches: empty result, nil error, a non-fatal warning in Errors(); " +
 			"non-trivial = the filter keeps some but not all entries; distinct = world hash + W",
 		Assumptions:       []string{"the filter is recomputed by the harness from the peers' Name()/Namespace() accessors of the unfocused run"},
-		NumCases:          func(tier string, _ int64) int { return tierN(tier, 1200, 40000) },
+		NumCases:          func(tier string, _ int64) int { return tierN(tier, 1200+nFixtureCases, 40000+nFixtureCases) },
 		Run:               runC16,
 		MinNonTrivial:     200,
 		MinEffectiveShare: 0.3,
@@ -35,9 +35,55 @@ func entryKeyed(res *observe.ListResult) map[[2]string]string {
 	return m
 }
 
+func runC16Fixture(c *run.Ctx) {
+	r := c.Res
+	g := c.R("fixture")
+	dir := fixtureFor(c.Repo, c.Idx)
+	if dir == "" {
+		r.Discarded = "no fixtures"
+		return
+	}
+	r.Name = "fixture " + dir
+	probe := observe.List(dir, observe.ListOpts{})
+	if probe.Panic != "" || probe.HasErr {
+		r.Ev("unfocused_errors", 1)
+		return
+	}
+	names := []string{}
+	for _, p := range probe.Peers {
+		if !p.IsIP {
+			names = append(names, p.Name, p.Ns+"/"+p.Name)
+		}
+	}
+	class, focus := "absent", "nosuch"
+	if len(names) > 0 && g.P(0.8) {
+		class, focus = "present", rng.Pick(g, names)
+	} else if g.P(0.5) {
+		class, focus = "ingress-controller", "ingress-controller"
+	}
+	hasIng := false
+	objs, _ := observe.ParseDir(dir)
+	for i := range objs {
+		if objs[i].Kind == "Ingress" || objs[i].Kind == "Route" {
+			hasIng = true
+		}
+	}
+	r.Ev("focus_fixture", 1)
+	r.Hash = "fixture/" + dir + "/" + focus
+	full, _, want := c16Judge(r, dir, focus, class, hasIng)
+	if full != nil {
+		r.Effective = len(want) > 0
+		r.NonTrivial = len(want) > 0 && len(want) < len(full.Entries)
+	}
+}
+
 func runC16(c *run.Ctx) {
 	r := c.Res
 	g := c.R("world")
+	if c.Idx < nFixtureCases {
+		runC16Fixture(c)
+		return
+	}
 	cfg := world.DefaultCfg()
 	cfg.NamedEgressIP = 0
 	if g.P(0.3) {
@@ -102,15 +148,32 @@ func runC16(c *run.Ctx) {
 		r.Discarded = err.Error()
 		return
 	}
+	full, foc, want := c16Judge(r, dir, focus, class, len(w.Ingresses)+len(w.Routes) > 0)
+	if full == nil {
+		return
+	}
+	r.Effective = len(want) > 0
+	r.NonTrivial = len(want) > 0 && len(want) < len(full.Entries)
+	if c.Idx%89 == 0 || len(r.Violations) > 0 {
+		s := sampleOf(w, foc, 8)
+		s["focus"] = focus
+		s["unfocused_entries"] = len(full.Entries)
+		s["expected_kept"] = len(want)
+		r.SetSample(s)
+	}
+}
+
+// c16Judge runs the unfocused and the focused analysis of a directory and compares them (the C16 oracle).
+func c16Judge(r *run.CaseResult, dir, focus, class string, hasIngressObjects bool) (*observe.ListResult, *observe.ListResult, map[[2]string]string) {
 	full := observe.List(dir, observe.ListOpts{})
 	foc := observe.List(dir, observe.ListOpts{Focus: focus})
 	if full.Panic != "" || foc.Panic != "" {
 		r.Violate("c16.total", "c16.total:any:panic", "a result or an error", "panic: "+full.Panic+foc.Panic, "")
-		return
+		return nil, nil, nil
 	}
 	if full.HasErr {
 		r.Ev("unfocused_errors", 1)
-		return
+		return nil, nil, nil
 	}
 	// recompute the filter from the unfocused run
 	matches := func(p observe.PeerInfo) bool {
@@ -142,7 +205,7 @@ func runC16(c *run.Ctx) {
 	}
 	if foc.HasErr {
 		r.Violate("c16.filter", "c16.filter:"+class+":error", "a (possibly empty) result, never an error", "error: "+foc.Err, "focus="+focus)
-		return
+		return nil, nil, nil
 	}
 	got := entryKeyed(foc)
 	r.Ev("entries_compared", int64(len(full.Entries)))
@@ -168,12 +231,12 @@ func runC16(c *run.Ctx) {
 	// W = ingress-controller "matches" as soon as the input has Ingress/Route objects (the controller then exists as a peer even
 	// if every backend is blocked); a warning is demanded only when there is no such object at all.
 	_ = hasIC
-	nothing := !anyMatch && !(focus == "ingress-controller" && len(w.Ingresses)+len(w.Routes) > 0)
+	nothing := !anyMatch && !(focus == "ingress-controller" && hasIngressObjects)
 	if nothing {
 		r.Ev("nothing_matches_cases", 1)
 		warn := false
 		for _, e := range foc.Errs {
-			if !e.Fatal && !e.Severe {
+			if !e.Fatal { // any non-fatal entry counts (an input without workloads is reported by a severe, non-fatal entry)
 				warn = true
 			}
 		}
@@ -184,13 +247,5 @@ func runC16(c *run.Ctx) {
 			r.Violate("c16.absent", "c16.absent:"+class+":nowarning", "a warning in Errors() when nothing matches W", "no non-fatal entry in Errors()", "focus="+focus)
 		}
 	}
-	r.Effective = len(want) > 0
-	r.NonTrivial = len(want) > 0 && len(want) < len(full.Entries)
-	if c.Idx%89 == 0 || len(r.Violations) > 0 {
-		s := sampleOf(w, foc, 8)
-		s["focus"] = focus
-		s["unfocused_entries"] = len(full.Entries)
-		s["expected_kept"] = len(want)
-		r.SetSample(s)
-	}
+	return full, foc, want
 }
